@@ -57,8 +57,8 @@ def modes():
         "none": [],
     }
     M = {}
-    M["gross_range"] = ("qartod.gross_range_test", lambda x, r, h: dict(inp=data(x, h), fail_span=r.choice([[-4, 4], (4, -4)]),
-                                                                        suspect_span=r.choice([None, [-2, 2]])), True, True)
+    M["gross_range"] = ("qartod.gross_range_test", lambda x, r, h: dict(inp=data(x, h), fail_span=r.choice([[-4, 4], (4, -4), [4, -4]]),
+                                                                        suspect_span=r.choice([None, [-2, 2], [2, -2]])), True, True)
     M["valid_range"] = ("axds.valid_range_test", lambda x, r, h: dict(
         inp=data(x, h) if h not in ("list-none", "list-nan") else gen.arr(x), valid_span=r.choice([(-2, 2), (None, 2), (-2, None)]),
         start_inclusive=r.random() < 0.5, end_inclusive=r.random() < 0.5), True, True)
@@ -157,8 +157,8 @@ def run(ctx) -> None:
         if ctx.thorough and rng.random() < 0.15:
             pool = pool + [1e150, -1e150, 1e-300, 1e15]
         x = [None if rng.random() < pm else rng.choice(pool) for _ in range(n)]
-        if "minperiod" in mname and n < 2:
-            continue  # sampling step undefined (outside the claimed domain)
+        # (min_period on fewer than two points has no sampling step: no exact flags are claimed, but the call is legal
+        #  and must still return one valid flag per point without raising)
         try:
             kw = build(x, rng, how)
         except Exception as e:  # noqa: BLE001
@@ -271,6 +271,8 @@ def run(ctx) -> None:
                     if fname == "axds.valid_range_test" and lname == "nested-list":
                         continue
                     kw = {"inp": arr_, **extra} if "location" not in fname else {"lon": arr_, "lat": arr_}
+                    if "location" in fname and lname in ("F", "masked-F") and rng.random() < 0.5:
+                        kw["lat"] = layouts["C"]  # same logical grid, other memory layout
                     o = client.invoke(fname, kw)
                     ctx.count("c01.nd_layout_calls")
                     ctx.case(f"nd|{fname}|{lname}|{r_}x{c_}")
